@@ -1,0 +1,16 @@
+//go:build verif
+
+package object
+
+// C03: no script or source text ends the process by exhausting the native stack. Every function of this package that
+// lies on a cycle of the package's call graph (static calls, closures, interface calls resolved by method name inside
+// the
+// package) is listed here; a new one - a helper that calls itself - has to be added with the reason it terminates
+// (seed C03i: a recursive integer power whose exponent never reaches zero for negative values, `2 ** -1` killed the
+// process). Why the listed ones terminate: Equals / Compare / Inspect / Interface / MarshalJSON of containers descend
+// into their elements with an in-progress flag (C03.cycle.* obligations: depth bounded by the number of containers);
+// the converters and the newXConverter / getTypeConverter / newGoType family recurse over the structure of a Go type
+// (finite; self-referential types terminate at the registry entry made before the fields are visited, KF-44) or over
+// a Go value (From: not guarded against cyclic Go data - recorded as reported, not claimed); File.* and GoMethod.*
+// are in the list only because the interface-call approximation matches method names (io.Closer etc.).
+//@ scan[C03.recursion.object] C03 recursive object: (*ArrayConverter).From (*ArrayConverter).To (*Cell).Interface (*DynamicConverter).From (*Entry).Equals (*Entry).Inspect (*Entry).Interface (*Error).Error (*File).Close (*File).Close$Close$1 (*File).Read (*File).Seek (*File).Write (*FileIter).Interface (*Function).Inspect (*GoMethod).NumIn (*GoMethod).NumOut (*GoType).getConverter (*IntIter).Interface (*List).Compare (*List).Equals (*List).Inspect (*List).Interface (*ListIter).Inspect (*ListIter).Interface (*Map).Equals (*Map).Inspect (*Map).Interface (*MapConverter).From (*MapConverter).To (*MapIter).Inspect (*MapIter).Interface (*NamedConverter).From (*NamedConverter).To (*Partial).Inspect (*PointerConverter).From (*PointerConverter).To (*Set).Equals (*Set).Inspect (*Set).Interface (*SetIter).Inspect (*SetIter).Interface (*SliceConverter).From (*SliceConverter).To (*SliceIter).Interface (*StructConverter).To (*Thread).Inspect Equals FromGoType NewFunction createTypeConverter getMethods getTypeConverter newArrayConverter newGoField newGoMethod newGoType newMapConverterWithKey newPointerConverter newSliceConverter newStructConverter
